@@ -4,7 +4,11 @@ package gomatrixserverlib
 
 import (
 	"context"
+	"crypto/ed25519"
+	"encoding/base64"
 	"fmt"
+	"strings"
+	"time"
 
 	"github.com/matrix-org/gomatrixserverlib/spec"
 	"pgregory.net/rapid"
@@ -100,7 +104,7 @@ func c15SendJoinCheck(ctx *vfCtx, c c15SendJoinCase) {
 	gStateKey := hasSK && sk.K == 's' && sk.S == sender
 	gRoom := evStr(ev, "room_id") == c.ReqRoom
 	gEventID := raEventID(c.Version, ev) == c.ReqEventID
-	gOrigin := raValidUserID(sender) && c15Domain(sender) == c.Origin
+	gOrigin := c15UserOK(sender) && c15Domain(sender) == c.Origin
 	gSigned := c15SignedBy(c.Version, ev, c.Origin, c.Keys)
 	gNotBanned := c.Existing != "ban"
 	gVia := true
@@ -113,7 +117,7 @@ func c15SendJoinCheck(ctx *vfCtx, c c15SendJoinCase) {
 		case v.S == "":
 			viaClass = "empty"
 		default:
-			gVia = raValidUserID(v.S) && c15Domain(v.S) == c15Local
+			gVia = c15UserOK(v.S) && c15Domain(v.S) == c15Local
 			viaClass = "local"
 			if !gVia {
 				viaClass = "not-local"
@@ -200,7 +204,7 @@ func c15SendJoinGen(t *rapid.T) c15SendJoinCase {
 	badEventID := false
 	nf := rapid.SampledFrom([]int{0, 0, 1, 1, 1, 1, 2}).Draw(t, "nFaults")
 	for i := 0; i < nf; i++ {
-		f := rapid.SampledFrom([]string{"type", "membership", "state-key", "room", "event-id", "origin", "sender-other", "sig", "sig", "banned", "via", "querier"}).Draw(t, "fault")
+		f := rapid.SampledFrom([]string{"type", "membership", "state-key", "room", "event-id", "origin", "sender-other", "sender-malformed", "sig", "sig", "banned", "via", "querier"}).Draw(t, "fault")
 		c.Faults = append(c.Faults, f)
 		switch f {
 		case "type":
@@ -231,6 +235,9 @@ func c15SendJoinGen(t *rapid.T) c15SendJoinCase {
 		case "sender-other":
 			sender = c15Otto
 			stateKey = raSK(c15Otto)
+		case "sender-malformed":
+			sender = rapid.SampledFrom([]string{"rita:remote.example", "@rita", "remote.example"}).Draw(t, "badSender")
+			stateKey = raSK(sender)
 		case "sig":
 			sigFault = rapid.SampledFrom(c15SigFaults).Draw(t, "sigFault")
 		case "banned":
@@ -253,7 +260,7 @@ func c15SendJoinGen(t *rapid.T) c15SendJoinCase {
 	}
 	e := raEv{Type: typ, Sender: sender, Room: evRoom, StateKey: stateKey, Content: content,
 		Prev: []string{c15FakeEventID(c.Version, "prev")}, Auth: []string{c15FakeEventID(c.Version, "auth1"), c15FakeEventID(c.Version, "auth2")},
-		Depth: 7, TS: c15TS, ID: "$c15join:" + c15Domain(sender)}
+		Depth: 7, TS: c15TS, ID: "$c15join:" + c15Remote}
 	ev := raJSON(c.Version, e)
 	// signatures: the requesting server signs (with the drawn fault); when the sender belongs to another
 	// server that server may sign as well (a good signature), so that "sender of origin" can be the only
@@ -276,5 +283,355 @@ func c15SendJoinGen(t *rapid.T) c15SendJoinCase {
 func init() {
 	vfRapid("C15/send-join",
 		"non-trivial = at most one of the guards (member event, membership join, sender = state key, room matches, event ID matches, sender of origin, validly signed by origin, not banned, authoriser local) is violated; distinct = distinct Case JSON",
-		1500, 40000, 8, c15SendJoinGen, c15SendJoinCheck)
+		2500, 80000, 8, c15SendJoinGen, c15SendJoinCheck)
+}
+
+// ---------------------------------------------------------------------------------------------
+// C15/send-join-pseudo — HandleSendJoin in pseudo-ID rooms (org.matrix.msc4014). The sender is a
+// base64 ed25519 room key that signs the event itself (key ID ed25519:1); content.mxid_mapping
+// {user_room_key, user_id, signatures} binds it to a user. Reading of the statement for these rooms
+// (the same as C06/pseudo): "sender belongs to the requesting server" = the mapping names the sender's
+// key and a user of the requesting server; "that server has validly signed" = the requesting server
+// has validly signed the mapping (strict rule, at the event's timestamp) and the sender key has
+// validly signed the event.
+
+const c15PseudoVersion = "org.matrix.msc4014"
+
+type c15SJPCase struct {
+	Origin      string   `json:"origin"`
+	ReqRoom     string   `json:"req_room"`
+	ReqEventID  string   `json:"req_event_id"`
+	Event       vfBytes  `json:"event"`
+	Keys        []c15Key `json:"keys"`
+	Existing    string   `json:"existing_membership"`
+	ExistingErr bool     `json:"existing_err,omitempty"`
+	StoreErr    bool     `json:"store_err,omitempty"`
+	Faults      []string `json:"faults"`
+}
+
+func c15StdPseudoID(label string) (string, ed25519.PrivateKey) {
+	pub, priv := vfKeyFor("c15:pseudo:" + label)
+	return base64.RawStdEncoding.EncodeToString(pub), priv
+}
+
+// c15MappingSignedBy: reference check of the mapping's signature by a server (strict rule at ts).
+func c15MappingSignedBy(mapping jv, server string, keys []c15Key, ts int64) bool {
+	sigs, ok := mapping.get("signatures")
+	if !ok || sigs.K != 'o' {
+		return false
+	}
+	ent, ok := sigs.get(server)
+	if !ok || ent.K != 'o' {
+		return false
+	}
+	msg := []byte(jcanon(mapping.without("signatures", "unsigned")))
+	limit := time.Now().Add(7 * 24 * time.Hour).UnixMilli()
+	for _, m := range ent.O {
+		if !strings.HasPrefix(m.Key, "ed25519:") || m.Val.K != 's' {
+			continue
+		}
+		raw, err := base64.RawStdEncoding.DecodeString(m.Val.S)
+		if err != nil {
+			continue
+		}
+		for _, k := range keys {
+			if k.Server != server || k.KeyID != m.Key {
+				continue
+			}
+			if k.Expired != 0 {
+				if ts >= k.Expired {
+					continue
+				}
+			} else {
+				until := k.ValidUntil
+				if until > limit {
+					until = limit
+				}
+				if k.ValidUntil == 0 || ts > until {
+					continue
+				}
+			}
+			pub, _ := vfKeyFor(k.Label)
+			if ed25519.Verify(pub, msg, raw) {
+				return true
+			}
+		}
+	}
+	return false
+}
+
+func c15SJPCheck(ctx *vfCtx, c c15SJPCase) {
+	ev, err := evTree(c.Event)
+	if err != nil {
+		ctx.Unjudged("generator: malformed event")
+		return
+	}
+	roomID, err := spec.NewRoomID(c.ReqRoom)
+	if err != nil {
+		ctx.Unjudged("generator: request room ID does not parse")
+		return
+	}
+	content, _ := ev.get("content")
+	typ := evStr(ev, "type")
+	sender := evStr(ev, "sender")
+	membership, _ := raStr(content, "membership")
+	sk, hasSK := ev.get("state_key")
+	ts := int64(-1)
+	if t, ok := ev.get("origin_server_ts"); ok && t.K == '#' {
+		fmt.Sscan(t.S, &ts)
+	}
+	mapping, hasMapping := content.get("mxid_mapping")
+	mapKey, _ := raStr(mapping, "user_room_key")
+	mapUser, _ := raStr(mapping, "user_id")
+
+	gMember := typ == "m.room.member"
+	gJoin := membership == "join"
+	gStateKey := hasSK && sk.K == 's' && sk.S == sender
+	gRoom := evStr(ev, "room_id") == c.ReqRoom
+	gEventID := raEventID(c15PseudoVersion, ev) == c.ReqEventID
+	gOrigin := hasMapping && mapping.K == 'o' && mapKey == sender && c15UserOK(mapUser) && c15Domain(mapUser) == c.Origin
+	selfSigned := false
+	if raw, err := base64.RawStdEncoding.DecodeString(sender); err == nil && len(raw) == ed25519.PublicKeySize {
+		selfSigned = rverify(c15PseudoVersion, ev, sender, "ed25519:1", ed25519.PublicKey(raw))
+	}
+	gSigned := selfSigned && hasMapping && mapping.K == 'o' && c15MappingSignedBy(mapping, c.Origin, c.Keys, ts)
+	gNotBanned := c.Existing != "ban"
+	gVia := true
+	if v, ok := content.get("join_authorised_via_users_server"); ok && v.K == 's' && v.S != "" {
+		gVia = c15UserOK(v.S) && c15Domain(v.S) == c15Local
+	}
+	guards := []struct {
+		ok   bool
+		name string
+	}{
+		{gMember, "not-a-member-event"}, {gJoin, "membership-not-join"}, {gStateKey, "sender-not-state-key"}, {gRoom, "room-mismatch"},
+		{gEventID, "event-id-mismatch"}, {gOrigin, "sender-not-of-origin"}, {gSigned, "not-validly-signed-by-origin"}, {gNotBanned, "banned"},
+		{gVia, "authoriser-not-local"},
+	}
+	violated := 0
+	for _, g := range guards {
+		if !g.ok {
+			violated++
+			ctx.Class("violated/" + g.name)
+		}
+	}
+	allGood := violated == 0 && !c.ExistingErr && !c.StoreErr
+	if allGood {
+		ctx.Class("all-guards-hold")
+	}
+	for _, f := range c.Faults {
+		ctx.Class("gen/" + f)
+	}
+	if violated <= 1 {
+		ctx.NonTrivial()
+	}
+
+	_, priv := vfKeyFor(c15KeyLabel(c15Local))
+	mq := &c15Membership{answer: c.Existing, err: c.ExistingErr}
+	stored := map[string]string{}
+	var resp *HandleSendJoinResponse
+	var herr error
+	if vfCatch(ctx, "C15/send-join-pseudo", func() {
+		resp, herr = HandleSendJoin(HandleSendJoinInput{
+			Context: c15Quiet(), RoomID: *roomID, EventID: c.ReqEventID, JoinEvent: spec.RawJSON(c.Event), RoomVersion: RoomVersion(c15PseudoVersion),
+			RequestOrigin: spec.ServerName(c.Origin), LocalServerName: c15Local, KeyID: c15KeyID, PrivateKey: priv,
+			Verifier: c15Ring(c.Keys), MembershipQuerier: mq,
+			UserIDQuerier: func(roomID spec.RoomID, senderID spec.SenderID) (*spec.UserID, error) {
+				u, ok := stored[string(senderID)]
+				if !ok {
+					return nil, fmt.Errorf("c15: no user known for sender ID %q", senderID)
+				}
+				return spec.NewUserID(u, true)
+			},
+			StoreSenderIDFromPublicID: func(ctx context.Context, senderID spec.SenderID, userID string, id spec.RoomID) error {
+				if c.StoreErr {
+					return fmt.Errorf("c15 scripted store error")
+				}
+				stored[string(senderID)] = userID
+				return nil
+			},
+		})
+	}) {
+		return
+	}
+	accepted := herr == nil && resp != nil && resp.JoinEvent != nil
+	if accepted {
+		ctx.Class("outcome/accepted")
+	} else {
+		ctx.Class("outcome/refused")
+	}
+	if herr == nil && !accepted {
+		ctx.Fail("C15/send-join-pseudo/no-error-no-event", "HandleSendJoin returned neither an error nor an event")
+		return
+	}
+	if accepted {
+		for _, g := range guards {
+			if !g.ok {
+				ctx.Fail("C15/send-join-pseudo/accepted-despite/"+g.name, "HandleSendJoin (pseudo IDs) accepted and counter-signed an event although guard %q is violated: origin=%s room=%s event_id=%s existing=%q event=%s",
+					g.name, c.Origin, c.ReqRoom, c.ReqEventID, c.Existing, c.Event)
+			}
+		}
+		c15CheckCountersigned(ctx, "send-join-pseudo", c15PseudoVersion, ev, resp.JoinEvent.JSON(), c15Local, c15KeyID, c15KeyLabel(c15Local))
+	}
+	if allGood && !accepted {
+		ctx.Fail("C15/send-join-pseudo/refused-although-all-guards-hold", "HandleSendJoin (pseudo IDs) refused (%v) an event for which every guard holds: %s", herr, c.Event)
+	}
+}
+
+func c15SJPGen(t *rapid.T) c15SJPCase {
+	c := c15SJPCase{Origin: c15Remote}
+	version := c15PseudoVersion
+	room := c15PlainRoomID(version, "room")
+	c.ReqRoom = room
+	sender, senderPriv := c15StdPseudoID("rita")
+	otherID, _ := c15StdPseudoID("someone-else")
+	typ, membership := "m.room.member", "join"
+	stateKey := raSK(sender)
+	evRoom := room
+	via := rapid.SampledFrom([]string{"-", "-", "", c15Lara}).Draw(t, "via")
+	c.Existing = rapid.SampledFrom([]string{"", "leave", "invite", "join", "knock"}).Draw(t, "existing")
+	mapUser, mapKey, mapSigner := c15Rita, sender, c15Remote
+	hasMapping := true
+	mapFault, selfFault := "", ""
+	badEventID := false
+	nf := rapid.SampledFrom([]int{0, 0, 1, 1, 1, 1, 2}).Draw(t, "nFaults")
+	for i := 0; i < nf; i++ {
+		f := rapid.SampledFrom([]string{"type", "membership", "state-key", "room", "event-id", "origin", "mapping-user-other", "mapping-key-mismatch", "mapping-absent",
+			"mapping-sig", "mapping-sig", "self-sig", "banned", "via", "querier", "store"}).Draw(t, "fault")
+		c.Faults = append(c.Faults, f)
+		switch f {
+		case "type":
+			typ = rapid.SampledFrom([]string{"m.room.topic", "org.example.custom", "m.room.message"}).Draw(t, "otherType")
+		case "membership":
+			membership = rapid.SampledFrom([]string{"leave", "invite", "ban", "knock", "-"}).Draw(t, "otherMembership")
+		case "state-key":
+			switch rapid.IntRange(0, 2).Draw(t, "skKind") {
+			case 0:
+				stateKey = nil
+			case 1:
+				stateKey = raSK("")
+			default:
+				stateKey = raSK(otherID)
+			}
+		case "room":
+			if rapid.Bool().Draw(t, "roomWhich") {
+				evRoom = c15PlainRoomID(version, "elsewhere")
+			} else {
+				c.ReqRoom = c15PlainRoomID(version, "elsewhere")
+			}
+		case "event-id":
+			badEventID = true
+		case "origin":
+			c.Origin = rapid.SampledFrom([]string{c15Other, c15Local}).Draw(t, "badOrigin")
+			if rapid.Bool().Draw(t, "originSignsMapping") {
+				mapSigner = c.Origin
+			}
+		case "mapping-user-other":
+			mapUser = c15Otto
+			if rapid.Bool().Draw(t, "userServerSigns") {
+				mapSigner = c15Other
+			}
+		case "mapping-key-mismatch":
+			mapKey = otherID
+		case "mapping-absent":
+			hasMapping = false
+		case "mapping-sig":
+			mapFault = rapid.SampledFrom(c15SigFaults).Draw(t, "mapFault")
+		case "self-sig":
+			selfFault = rapid.SampledFrom([]string{"absent", "corrupt", "wrong-key"}).Draw(t, "selfFault")
+		case "banned":
+			c.Existing = "ban"
+		case "via":
+			via = rapid.SampledFrom([]string{c15Otto, "not-a-user-id", "@lara:local.example:8448"}).Draw(t, "badVia")
+		case "querier":
+			c.ExistingErr = true
+		case "store":
+			c.StoreErr = true
+		}
+	}
+	// the mapping, signed by mapSigner with the drawn fault (mapping signatures are plain JSON
+	// signatures over the canonical mapping without its signatures)
+	c.Keys = c15GoodKeys()
+	mapping := jobj("user_room_key", jstr(mapKey), "user_id", jstr(mapUser))
+	msg := []byte(jcanon(mapping))
+	signMap := func(server, keyID, label string, corrupt bool) {
+		_, priv := vfKeyFor(label)
+		raw := ed25519.Sign(priv, msg)
+		if corrupt {
+			raw[9] ^= 0x10
+		}
+		sigs, _ := mapping.get("signatures")
+		if sigs.K != 'o' {
+			sigs = jv{K: 'o'}
+		}
+		mapping = mapping.with("signatures", sigs.with(server, jobj(keyID, jstr(base64.RawStdEncoding.EncodeToString(raw)))))
+	}
+	switch mapFault {
+	case "":
+		signMap(mapSigner, c15KeyID, c15KeyLabel(mapSigner), false)
+	case "absent":
+		mapping = mapping.with("signatures", jv{K: 'o'})
+	case "other-server-only":
+		o := c15Other
+		if mapSigner == c15Other {
+			o = c15Remote
+		}
+		signMap(o, c15KeyID, c15KeyLabel(o), false)
+	case "corrupt":
+		signMap(mapSigner, c15KeyID, c15KeyLabel(mapSigner), true)
+	case "wrong-key":
+		signMap(mapSigner, c15KeyID, "c15:impostor", false)
+	case "unknown-key-id":
+		signMap(mapSigner, "ed25519:unpublished", c15KeyLabel(mapSigner), false)
+	case "expired", "key-expired-ts":
+		for i := range c.Keys {
+			if c.Keys[i].Server == mapSigner {
+				if mapFault == "expired" {
+					c.Keys[i].ValidUntil = c15TS - 60000
+				} else {
+					c.Keys[i].Expired = c15TS - 60000
+				}
+			}
+		}
+		signMap(mapSigner, c15KeyID, c15KeyLabel(mapSigner), false)
+	}
+	content := jv{K: 'o'}
+	if membership != "-" {
+		content = content.with("membership", jstr(membership))
+	}
+	if via != "-" {
+		content = content.with("join_authorised_via_users_server", jstr(via))
+	}
+	if hasMapping {
+		content = content.with("mxid_mapping", mapping)
+	}
+	e := raEv{Type: typ, Sender: sender, Room: evRoom, StateKey: stateKey, Content: content,
+		Prev: []string{c15FakeEventID(version, "prev")}, Auth: []string{c15FakeEventID(version, "auth1")}, Depth: 7, TS: c15TS}
+	ev := raJSON(version, e)
+	switch selfFault {
+	case "":
+		ev = rsign(version, ev, sender, "ed25519:1", senderPriv)
+	case "corrupt":
+		ev = rsign(version, ev, sender, "ed25519:1", senderPriv)
+		s, _ := c02SigOfTree(ev, sender, "ed25519:1")
+		raw, _ := base64.RawStdEncoding.DecodeString(s)
+		raw[3] ^= 0x08
+		sigs, _ := ev.get("signatures")
+		ev = ev.with("signatures", sigs.with(sender, jobj("ed25519:1", jstr(base64.RawStdEncoding.EncodeToString(raw)))))
+	case "wrong-key":
+		_, p := vfKeyFor("c15:impostor")
+		ev = rsign(version, ev, sender, "ed25519:1", p)
+	}
+	c.ReqEventID = raEventID(version, ev)
+	if badEventID {
+		c.ReqEventID = c15FakeEventID(version, "someotherevent")
+	}
+	c.Event = vfBytes(jplain(ev))
+	return c
+}
+
+func init() {
+	vfRapid("C15/send-join-pseudo",
+		"non-trivial = at most one of the guards (as C15/send-join, with the mxid_mapping standing for 'sender of origin' and the mapping's + the sender key's signatures for 'validly signed') is violated; distinct = distinct Case JSON",
+		600, 15000, 4, c15SJPGen, c15SJPCheck)
 }
